@@ -623,7 +623,7 @@ func writeTypeConversion(w *formatting.IndentedWriter, typeChange dsl.TypeChange
 		w.Indented(func() {
 			writeTypeConversion(w, tc.InnerChange, sourceName+".value()", targetName, write)
 		})
-		fmt.Fprintf(w, "}\n")
+		writeResetTargetElse(w, targetName)
 
 	case *dsl.TypeChangeOptionalToScalar:
 		writeTypeConversion(w, tc.Inverse(), sourceName, targetName, !write)
@@ -633,7 +633,7 @@ func writeTypeConversion(w *formatting.IndentedWriter, typeChange dsl.TypeChange
 			w.Indented(func() {
 				fmt.Fprintf(w, "%s = %s.value();\n", targetName, sourceName)
 			})
-			fmt.Fprintf(w, "}\n")
+			writeResetTargetElse(w, targetName)
 		} else {
 			fmt.Fprintf(w, "%s = %s;\n", targetName, sourceName)
 		}
@@ -647,7 +647,7 @@ func writeTypeConversion(w *formatting.IndentedWriter, typeChange dsl.TypeChange
 			w.Indented(func() {
 				fmt.Fprintf(w, "%s = std::get<%d>(%s);\n", targetName, tc.TypeIndex, sourceName)
 			})
-			fmt.Fprintf(w, "}\n")
+			writeResetTargetElse(w, targetName)
 		} else {
 			// Reading a Scalar into a Union
 			fmt.Fprintf(w, "%s = %s;\n", targetName, sourceName)
@@ -662,7 +662,7 @@ func writeTypeConversion(w *formatting.IndentedWriter, typeChange dsl.TypeChange
 			w.Indented(func() {
 				fmt.Fprintf(w, "%s = std::get<%d>(%s);\n", targetName, tc.TypeIndex, sourceName)
 			})
-			fmt.Fprintf(w, "}\n")
+			writeResetTargetElse(w, targetName)
 		} else {
 			// Reading an Optional into a Union
 			fmt.Fprintf(w, "if (%s.has_value()) {\n", sourceName)
@@ -732,6 +732,16 @@ func writeTypeConversion(w *formatting.IndentedWriter, typeChange dsl.TypeChange
 	}
 }
 
+// Closes the "if" of a conversion that only assigns for some source values: otherwise the target
+// gets its zero value (it may be a reused object that still holds an earlier value).
+func writeResetTargetElse(w *formatting.IndentedWriter, targetName string) {
+	fmt.Fprintf(w, "} else {\n")
+	w.Indented(func() {
+		fmt.Fprintf(w, "%s = {};\n", targetName)
+	})
+	fmt.Fprintf(w, "}\n")
+}
+
 // If a TypeChange is the result of an underlying TypeDefinition change, we don't need to perform
 // explicit conversion - we only need to call the corresponding "compatibility" serializer functions
 func requiresExplicitConversion(tc dsl.TypeChange) bool {
@@ -784,6 +794,12 @@ func writeCompatibilitySerializers(w *formatting.IndentedWriter, change dsl.Defi
 					}
 				} else {
 					fmt.Fprintf(w, "%s(stream, value.%s);\n", typeRwFunction(field.Type, write), tmpVarName)
+				}
+			}
+			if !write {
+				// Fields that the previous version does not have read as their zero value
+				for _, field := range change.FieldsAdded {
+					fmt.Fprintf(w, "value.%s = {};\n", common.FieldIdentifierName(field.Name))
 				}
 			}
 		case *dsl.NamedTypeChange:
